@@ -27,9 +27,9 @@ import (
 	"github.com/mattn/anko/vm"
 
 	"verifsim/harness"
+	_ "verifsim/props/c09"
 	_ "verifsim/props/c13"
 	c13 "verifsim/props/c13"
-	_ "verifsim/props/c09"
 	c14 "verifsim/props/c14"
 	c16 "verifsim/props/c16"
 )
@@ -81,6 +81,7 @@ func TestRaceC14(t *testing.T) {
 	p := harness.Lookup("C14")
 	end := time.Now().Add(d)
 	n := 0
+	storms := 0
 	for i := int64(0); time.Now().Before(end); i++ {
 		c := p.Gen((seed<<20)+i, "race")
 		for rep := 0; rep < 2; rep++ {
@@ -99,13 +100,21 @@ func TestRaceC14(t *testing.T) {
 				t.FailNow()
 			}
 		}
+		// a stretch of 20 ms with a host function type the process has never seen; about a third of the leg's time
+		for k := 0; k < 2; k++ {
+			storms++
+			if msg := c14.FuncTypeStormReal(int(seed%1000)*53 + storms); msg != "" {
+				fmt.Printf("REAL-LEG VIOLATION class=concurrent-differs\n%s\n", msg)
+				t.FailNow()
+			}
+		}
 		n++
 	}
 	if g := c14.ProcessGlobals() + c14.ScanSmallInts(); g != "" {
 		fmt.Printf("REAL-LEG VIOLATION class=process-globals\nprocess-wide values modified: %s\n", g)
 		t.FailNow()
 	}
-	report(map[string]any{"workloads": n, "repeats_each": 2, "seconds": d.Seconds()})
+	report(map[string]any{"workloads": n, "repeats_each": 2, "seconds": d.Seconds(), "function_type_storms": storms})
 }
 
 // TestRaceC16 is the real-thread leg of C16: the generated pipelines (including
